@@ -4,7 +4,7 @@ its negation is proved with a concrete schedule (kernel-evaluated), and the sche
 as a protocol line (`Driver.witnessLines`) that is replayed on the real code on every run.
 The provable parts are the `Props` theorems with their explicit exclusions.
 -/
-import CaddyModel.C04.Props
+import CaddyModel.C04.Reach
 
 namespace CaddyModel.C04
 
@@ -238,5 +238,19 @@ theorem range_failing_ctor_deadlock_reachable :
   exact ⟨of_decide_eq_true (congrArg (·.1) hf), of_decide_eq_true (congrArg (·.2.1) hf),
     of_decide_eq_true (congrArg (·.2.2.1) hf), congrArg (·.2.2.2.1) hf, congrArg (·.2.2.2.2.1) hf,
     congrArg (·.2.2.2.2.2) hf⟩
+
+/-! ### the exported protocol lines are these schedules (thread-level runs, kernel-evaluated) -/
+
+-- F12 line `sched 1 N0f;S0,d0;N0o 0100122111`: C (thread 2) still holds entry 1, whose value was destructed
+example : let y := runSched 1 [[.ln 0 false], [.ls 0, .cdel 0], [.ln 0 true]] [0, 1, 0, 0, 1, 2, 2, 1, 1, 1]
+    (y.clean, (y.g.ent 1).holders, (y.g.ent 1).destructed) = (false, 1, 1) := by decide
+-- `sched 1 S0,d0;R0 0101`: the fourth event is thread 1's `Q0`
+example : ((runSched 1 [[.ls 0, .cdel 0], [.refs 0]] [0, 1, 0, 1]).out.reverse.drop 3).head? = some "1:Q0/-" := by decide
+-- `sched 1 S0,d0;N0o 0011`
+example : let y := runSched 1 [[.ls 0, .cdel 0], [.ln 0 true]] [0, 0, 1, 1]
+    (y.clean, y.g.pool 0, (y.g.ent 0).value, (y.g.ent 1).value) = (true, some 1, some 1, some 2) := by decide
+-- `sched 1 N0f;G 001`: nothing is enabled, two calls unfinished
+example : let y := runSched 1 [[.ln 0 false], [.range]] [0, 0, 1]
+    (allFinished y.threads, (firstEnabled 1 y.g y.threads 0).isSome) = (false, false) := by decide
 
 end CaddyModel.C04
